@@ -8,6 +8,9 @@
 // point, after every completed operation, after all threads finished): a difference means the
 // returned list/name was rewritten under its holder (C16.torn). (b) Auxiliary: the same bodies free-running under the Go
 // race detector (sampling; decides only the "no data race" clause).
+// Family D of the scenarios makes face teardown a first-class operation: registered faces that own
+// routes, the real face.Table.Remove / faces/destroy (also two teardowns of one face) against the
+// real face-guarded management handlers (rib/register, fib/add-nexthop, ...), lookups and probes.
 package main
 
 import (
@@ -185,6 +188,38 @@ func (c *scnCtx) scenario() sched.Scenario {
 				keptFs = append(keptFs, sched.Finding{Clause: "C16.torn", Key: keptKey(c.fib, k.Kind, c.s), Detail: k.String()})
 			}
 			final, held := safeFinal()
+			var deadRefs []uint64
+			if held == "" && scn.Family(c.s.Name) == "D" {
+				deadRefs = scn.DeadFaceRefs()
+			}
+			// (family D) a lookup issued, in program order, after a teardown of a face by the same
+			// thread had returned, that still got the face as next hop: names the symptom if the
+			// history turns out not to be linearizable
+			staleLookup := ""
+			if scn.Family(c.s.Name) == "D" {
+				for t, prog := range c.s.Threads {
+					down := map[uint64]bool{}
+					for k, op := range prog {
+						if sl, is := scn.TeardownSlot(op); is && op.Kind == "FaceDown" {
+							down[scn.SlotFace(sl)] = true
+						}
+						if op.Kind != "Lookup" {
+							continue
+						}
+						for _, e := range e.Hist {
+							if e.Op != fmt.Sprint(c.ids[opRef{t, k}]) {
+								continue
+							}
+							for _, h := range strings.Split(e.Result, ",") {
+								var f uint64
+								if _, err := fmt.Sscanf(h, "%d:", &f); err == nil && down[f] && staleLookup == "" {
+									staleLookup = fmt.Sprintf("%s returned {%s} after the teardown of face %d by the same thread had returned", op.Name, e.Result, f)
+								}
+							}
+						}
+					}
+				}
+			}
 			if held != "" {
 				return append(keptFs, sched.Finding{Clause: "C16.deadlock", Key: c.fib + " a lock is still held after all operations returned: " + kinds(c.s), Detail: "reading the tables after the execution of " + c.s.Name + " blocks: " + held})
 			}
@@ -217,6 +252,29 @@ func (c *scnCtx) scenario() sched.Scenario {
 			}
 			finalOK, linOK, seqBlocked := false, false, false
 			var firstDiff string
+			// Three-valued part of the oracle. A management command that is guarded by the existence
+			// of a face (rib/register, fib/add-nexthop with a FaceId; faces/destroy) and that found the
+			// face already unpublished by a teardown still in progress has left the tables untouched.
+			// The property says nothing about the status such a command reports while the teardown
+			// overlaps it, and an operation that changed nothing constrains no lookup: its position
+			// among the operations of OTHER threads that follow it in real time is left free. (Its own
+			// result is still compared, and so is everything ordered before it.) For a registration the
+			// refusal is its status 410; faces/destroy reports 200 either way, so it is left free only
+			// where a teardown of the same face by another thread overlaps it.
+			free := make([]bool, n)
+			for x, op := range c.ops {
+				m := scn.Meta(op)
+				switch m.Guard {
+				case "register":
+					free[x] = res[x] == "410"
+				case "destroy":
+					for y, oy := range c.ops {
+						if sl, is := scn.TeardownSlot(oy); is && sl == m.Slot && c.thr[y] != c.thr[x] && inv[y] <= resp[x] && inv[x] <= resp[y] {
+							free[x] = true
+						}
+					}
+				}
+			}
 			for _, ord := range c.order {
 				// real-time order
 				p := make([]int, n)
@@ -226,7 +284,7 @@ func (c *scnCtx) scenario() sched.Scenario {
 				ok := true
 				for x := 0; x < n && ok; x++ {
 					for y := 0; y < n; y++ {
-						if x != y && resp[x] < inv[y] && p[x] > p[y] {
+						if x != y && resp[x] < inv[y] && p[x] > p[y] && !(free[x] && c.thr[x] != c.thr[y]) {
 							ok = false
 							break
 						}
@@ -269,10 +327,36 @@ func (c *scnCtx) scenario() sched.Scenario {
 				return fs
 			}
 			if !finalOK {
-				fs = append(fs, sched.Finding{Clause: "C16.final", Key: c.fib + " final tables match no sequential order: " + kinds(c.s), Detail: "final state " + final + " equals the outcome of no real-time-consistent sequential order of " + c.s.Name})
+				what := kinds(c.s)
+				if scn.Family(c.s.Name) == "D" {
+					what = strings.Join(updateKinds(c.s), "||") // (the key names the updates that collided, not the readers next to them)
+				}
+				if len(deadRefs) > 0 {
+					// one root cause, one key: name the teardown and the face-guarded command kind(s)
+					set := map[string]bool{}
+					for _, op := range c.ops {
+						if scn.Meta(op).Guard == "register" {
+							set[op.Kind] = true
+						}
+					}
+					var g []string
+					for k := range set {
+						g = append(g, k)
+					}
+					sort.Strings(g)
+					if len(g) > 0 {
+						what = "face teardown || " + strings.Join(g, "||")
+					}
+					what = "a route or next hop of a torn-down face remains: " + what
+				}
+				fs = append(fs, sched.Finding{Clause: "C16.final", Key: c.fib + " final tables match no sequential order: " + what, Detail: fmt.Sprintf("(faces no longer in the face table that still own a route or next hop: %v) ", deadRefs) + "final state " + final + " equals the outcome of no real-time-consistent sequential order of " + c.s.Name})
 			} else if !linOK {
 				// which op kinds have results that no order explains
-				fs = append(fs, sched.Finding{Clause: "C16.lin", Key: c.fib + " reader result matches no state between overlapping operations: " + kinds(c.s), Detail: "history not linearizable: " + firstDiff})
+				if staleLookup != "" {
+					fs = append(fs, sched.Finding{Clause: "C16.lin", Key: c.fib + " a lookup issued after a face teardown had returned still gets the torn-down face as next hop (matches no state between overlapping operations): " + strings.Join(updateKinds(c.s), "||"), Detail: "history not linearizable: " + staleLookup + "; " + firstDiff})
+				} else {
+					fs = append(fs, sched.Finding{Clause: "C16.lin", Key: c.fib + " reader result matches no state between overlapping operations: " + kinds(c.s), Detail: "history not linearizable: " + firstDiff})
+				}
 			}
 			return fs
 		},
@@ -384,9 +468,27 @@ func racePass(rep *report.Reporter, cov report.Coverage, budget time.Duration, s
 	// of whatever is completed.
 	var jobs, jobsC []job
 	for _, fib := range []string{"tree", "ht"} {
+		// (family B is dealt into family A, one after every four, so that its scenarios are not all
+		// behind the 171 of family A when the budget ends the pass early)
+		var ja, jb []job
 		for i := range all {
-			if scn.Family(all[i].Name) != "C" {
-				jobs = append(jobs, job{fib, i})
+			switch scn.Family(all[i].Name) {
+			case "A":
+				ja = append(ja, job{fib, i})
+			case "B":
+				jb = append(jb, job{fib, i})
+			}
+		}
+		for len(ja) > 0 || len(jb) > 0 {
+			n := 4
+			if len(ja) < n {
+				n = len(ja)
+			}
+			jobs = append(jobs, ja[:n]...)
+			ja = ja[n:]
+			if len(jb) > 0 {
+				jobs = append(jobs, jb[0])
+				jb = jb[1:]
 			}
 		}
 	}
@@ -399,6 +501,27 @@ func racePass(rep *report.Reporter, cov report.Coverage, budget time.Duration, s
 				jobsC = append(jobsC, job{"tree", i}, job{"ht", i})
 			}
 		}
+	}
+	// family D (teardown of registered faces against face-guarded management commands): dealt in
+	// the same way, alternating with family C
+	{
+		var jobsD, cd []job
+		for i := range all {
+			if scn.Family(all[i].Name) == "D" {
+				jobsD = append(jobsD, job{"tree", i}, job{"ht", i})
+			}
+		}
+		for len(jobsC) > 0 || len(jobsD) > 0 {
+			if len(jobsD) > 0 {
+				cd = append(cd, jobsD[0])
+				jobsD = jobsD[1:]
+			}
+			if len(jobsC) > 0 {
+				cd = append(cd, jobsC[0])
+				jobsC = jobsC[1:]
+			}
+		}
+		jobsC = cd
 	}
 	{
 		var mixed []job
@@ -554,7 +677,7 @@ func main() {
 		os.Exit(replay(os.Args[2]))
 	}
 	rep := report.New("C16", "model_checking")
-	bound, budget, raceBudget := 2, 70*time.Second, 45*time.Second
+	bound, budget, raceBudget := 2, 65*time.Second, 35*time.Second
 	if rep.Thorough() {
 		bound, budget, raceBudget = 3, 18*time.Minute, 6*time.Minute
 	}
@@ -563,7 +686,36 @@ func main() {
 	var items []workItem
 	for _, fib := range []string{"tree", "ht"} {
 		for i := range all {
+			// (development aid, never set by ./check: restrict the run to one scenario family)
+			if f := os.Getenv("C16_ONLY_FAMILY"); f != "" && scn.Family(all[i].Name) != f {
+				continue
+			}
 			items = append(items, workItem{fib, i})
+		}
+	}
+	// The scenarios are dealt round-robin over the (FIB, family) groups, so that a deadline that
+	// ends the run early on a loaded machine (exhaustive:false) takes its toll from every family
+	// instead of dropping the families that happen to be listed last.
+	{
+		var order []string
+		groups := map[string][]workItem{}
+		for _, it := range items {
+			g := it.Fib + scn.Family(all[it.Idx].Name)
+			if _, ok := groups[g]; !ok {
+				order = append(order, g)
+			}
+			groups[g] = append(groups[g], it)
+		}
+		items = items[:0]
+		for more := true; more; {
+			more = false
+			for _, g := range order {
+				if len(groups[g]) > 0 {
+					items = append(items, groups[g][0])
+					groups[g] = groups[g][1:]
+					more = true
+				}
+			}
 		}
 	}
 	nw := enum.Workers()
@@ -645,14 +797,17 @@ func main() {
 		"preemption_bound_target": bound, "distinct_histories": outcomes, "determinism_double_runs": dbl,
 		"exhaustive": complete, "samples": samples, "per_scenario": per,
 		"lookup_results_kept_by_reference_and_reread": kept, "scenarios_per_family": famScn, "schedules_per_family": famExec,
-		"rule":        "for each of the 2- and 3-thread scenarios (all pairs over 16 thread programs colliding on /a, /a/b and faces 1,2, plus selected triples; family B: the same from a state with leftovers of earlier removals; family C: strategy choices re-pointed/unset/re-created on prefixes that already have one, incl. the default on /, against strategy and next-hop lookups) x {tree, hashtable FIB}: every schedule with at most the stated number of preemptions, scheduling points at every sync operation of fw/table and between obtaining and consuming a lookup result; each complete execution checked for crash, deadlock, linearizability against the same implementation run sequentially (brute force over all program-order- and real-time-consistent orders), torn results and final-state equivalence; every value a lookup returned is kept by reference with a deep snapshot taken at the return and read again after the lookup thread's next scheduling point, after every completed operation and after all threads finished (a difference = the returned list/name was rewritten under its holder: C16.torn)",
+		"rule":        "for each of the 2- and 3-thread scenarios (all pairs over 16 thread programs colliding on /a, /a/b and faces 1,2, plus selected triples; family B: the same from a state with leftovers of earlier removals; family C: strategy choices re-pointed/unset/re-created on prefixes that already have one, incl. the default on /, against strategy and next-hop lookups; family D: faces that really are in the face table and the dispatch table and own routes, torn down through the real face.Table.Remove and the real faces/destroy handler - also twice, by two threads - against the real rib/register, rib/unregister, fib/add-nexthop, fib/remove-nexthop handlers of the management thread (explicit FaceId: guarded by the face's existence; no FaceId: the arrival face), lookups and face-table / dispatch-table probes, incl. a lookup and a probe issued by the thread whose teardown has just returned) x {tree, hashtable FIB}: every schedule with at most the stated number of preemptions, scheduling points at every sync operation of fw/table and between obtaining and consuming a lookup result; each complete execution checked for crash, deadlock, linearizability against the same implementation run sequentially (brute force over all program-order- and real-time-consistent orders), torn results and final-state equivalence; every value a lookup returned is kept by reference with a deep snapshot taken at the return and read again after the lookup thread's next scheduling point, after every completed operation and after all threads finished (a difference = the returned list/name was rewritten under its holder: C16.torn)",
 		"explanation": "states/transitions = scheduling points visited; every schedule is an execution of the real code under the controlled scheduler",
 	}
-	racePass(rep, cov, raceBudget, deadlocked)
+	if os.Getenv("C16_ONLY_FAMILY") == "" {
+		racePass(rep, cov, raceBudget, deadlocked)
+	}
 	rep.Finish(cov, []string{
 		"scheduling points exist only at sync operations of fw/table (and explicit yields in the bodies); unsynchronised accesses are covered by the separate free-running -race pass (sampled, auxiliary)",
 		"Go lock fairness/writer preference and memory-model effects beyond sequential consistency are not modelled",
 		"scenario universe: names /, /a, /a/b, /c (+lookups below), faces 1..4, strategies multicast and best-route, initial routes /a->f1(CI) /a->f2 /a/b->f2(CI); family C additionally starts with strategy choices /a=multicast /a/b=best-route /c=multicast",
+		"family D: at most one thread of a scenario issues management commands (the daemon has one management thread) and that thread issues no lookups; the status a face-guarded command (rib/register, fib/add-nexthop with FaceId; faces/destroy) reports while a teardown of that face overlaps it is not judged (the property is silent): a command that was refused (410) - for faces/destroy: that overlapped another thread's teardown of the same face - left the tables untouched and is not required to precede the operations other threads start after it; its own result and everything else stay under the linearizability and final-state clauses",
 	})
 }
 
